@@ -972,5 +972,198 @@ class C13(EvalProp):
         return out
 
 
-REGISTRY = {"C01": C01, "C02": C02, "C03": C03, "C04": C04, "C05": C05, "C06": C06, "C07": C07, "C10": C10, "C11": C11, "C13": C13, "C14": C14}
+def np_text(loc):
+    """python rendering of the Normalized Path of a location given as [('n', name) | ('i', k)]"""
+    out = "$"
+    for kind, v in loc:
+        if kind == "i":
+            out += "[%d]" % v
+        else:
+            body = ""
+            for ch in v:
+                o = ord(ch)
+                esc = {8: "\\b", 12: "\\f", 10: "\\n", 13: "\\r", 9: "\\t", 39: "\\'", 92: "\\\\"}
+                if o in esc:
+                    body += esc[o]
+                elif o < 32:
+                    body += "\\u%04x" % o
+                else:
+                    body += ch
+            out += "['" + body + "']"
+    return out
+
+
+def doc_locations(d, loc=()):
+    yield loc, d
+    if isinstance(d, tuple) and d and d[0] == "a":
+        for i, x in enumerate(d[1:]):
+            yield from doc_locations(x, loc + (("i", i),))
+    elif isinstance(d, tuple) and d and d[0] == "o":
+        for k, x in d[1:]:
+            yield from doc_locations(x, loc + (("n", unS(k)),))
+
+
+def loc_plain_py(loc):
+    return all(kind == "i" or all(ord(c) >= 32 and c not in "'\\" for c in v) for kind, v in loc)
+
+
+class C09(PropCheck):
+    pid = "C09"
+    design_ref = "DESIGN.md section 3, C09"
+    technique = "Coq proof (path_steps/walk = lookup of the location; lens laws of set_at) + exhaustive per-location differential run"
+    level_text = ("Coq theorems: for every document and every location whose names need no escaping, the model of reference/reference_mut "
+                  "(path_steps + step-by-step walk) applied to the AST of the Normalized Path resolves to exactly that location when it "
+                  "exists and to None when it does not; whatever a path resolves to lives at the resolved location; writing through a "
+                  "location replaces that node and leaves every location that does not pass through it unchanged (lens laws, unbounded). "
+                  "That the parser reads np(l) as that AST is checked on every run: every location of generated documents, near-miss paths "
+                  "(wrong step kind, out of range, / and ~ names), and paths reported by queries are fed to reference and reference_mut of the crate.")
+    level_note = "parser part of the composition not proved; names needing escapes are the known class D6 (raw result paths); &mut aliasing is Rust's type system"
+    rule = ("for generated documents: every location (capped per document) with its Normalized Path, near-miss paths, and paths reported by "
+            "random queries; 6 replacement values; observable = resolved location (by address) and the whole document after writing through "
+            "reference_mut; non-trivial = the path resolves in the RFC reading; distinct = distinct (document, path, replacement)")
+    n_quick = 700
+    n_thorough = 20000
+
+    REPL = ["null", ("i", 7), S("new"), ("a", ("i", 1)), ("o", (S("k"), ("b", 1))), ("f", 1, -1)]
+
+    def cases(self):
+        n = self.n_quick if self.tier == "quick" else self.n_thorough
+        out = []
+        profs = [gen.Profile(odd_names=True, max_depth=3), gen.Profile(odd_names=True, hostile_names=True, max_depth=3)]
+        cid = 0
+        for di in range(n):
+            g = gen.Gen(self.rng, profs[di % 2])
+            d = g.doc()
+            locs_ = list(doc_locations(d))
+            self.rng.shuffle(locs_)
+            for loc, sub in locs_[:8]:
+                paths = [(np_text(loc), "np")]
+                if loc:
+                    kind, v = loc[-1]
+                    par = loc[:-1]
+                    if kind == "i":
+                        paths += [(np_text(par + (("n", str(v)),)), "index-as-name"), (np_text(par + (("i", v + 50),)), "out-of-range"),
+                                  (np_text(par) + "[-1]", "negative")]
+                    else:
+                        paths += [(np_text(par + (("n", v + "x"),)), "missing-name"), (np_text(par) + "[0]", "name-as-index")]
+                        if v.isdigit():
+                            paths += [(np_text(par) + "[%s]" % v, "digit-name-as-index")]
+                else:
+                    paths += [("$[*]", "non-singular"), ("$..a", "non-singular"), ("$.a.b", "missing"), ("$['a~1b']", "tilde"), ("$['a/b']", "slash"), ("", "invalid"), ("$[", "invalid")]
+                for text, why in paths:
+                    r = self.rng.choice(self.REPL)
+                    out.append(Case("c%d" % cid, "REF", [d, S(text), r], {"path": text, "why": why, "plain": loc_plain_py(loc)}))
+                    cid += 1
+        # paths reported by queries are fed back
+        g = gen.Gen(self.rng, gen.Profile(odd_names=True, max_segments=3, filter_depth=1))
+        for qi in range(n // 2):
+            q, d = g.pair()
+            if not (gen.parser_shaped(q) and gen.valid_ast(q)):
+                continue
+            text = gen.render(q, gen.Layout(self.rng, 0.0))
+            out.append(Case("q%d" % qi, "EVAL", [q, d], {"feed": True, "query": text}, impl=("E2E", [S(text), d])))
+        return out
+
+    def followups(self, c, ans):
+        if not c.meta.get("feed"):
+            return []
+        I = parse_items(ans.get("I"))
+        if isinstance(I, str):
+            return []
+        out = []
+        d = c.fields[1]
+        for k, (l, p) in enumerate(I[:4]):
+            text = "".join(chr(int(x)) for x in p.split(".")) if p else ""
+            out.append(Case("%sf%d" % (c.id, k), "REF", [d, S(text), self.rng.choice(self.REPL)],
+                            {"path": text, "why": "reported-by-query", "expect_loc": l, "plain": True}))
+        return out
+
+    def judge(self, c, ans):
+        if c.kind != "REF":
+            return Verdict("ok")
+        I, M, R = ans.get("I"), ans.get("M"), ans.get("R")
+        key = sx_key(c)
+        if not I or not M or not R:
+            return Verdict("violation", detail="missing answer %r" % ans)
+        if I[0] not in ("OK", "NONE"):
+            return Verdict("violation", detail="reference/reference_mut answered %r" % (I,), nontrivial=True, key=key)
+        from .sx import parse, canon
+        def obs(x):
+            return (x[0], x[1], canon(parse(x[2])) if len(x) > 2 and x[2].startswith("(") else x[2] if len(x) > 2 else None)
+        oI, oM, oR = obs(I), obs(M), obs(R)
+        nt = R[0] == "OK"
+        self.count("why_" + c.meta.get("why", "?"))
+        if "expect_loc" in c.meta:
+            # a path reported by a query must resolve to the node it was reported for
+            if I[0] == "OK" and I[1] == c.meta["expect_loc"]:
+                return Verdict("ok", nontrivial=True, key=key)
+            if oI == oM and not all(ord(ch) >= 32 and ch not in "\\" for ch in c.meta["path"].replace("['", "").replace("']", "")) or "\"" in c.meta["path"] or c.meta["path"].count("'") % 2 == 1:
+                self.count("known_D6")
+                return Verdict("known", cls="D6-raw-paths", detail="reported path %r does not resolve back" % c.meta["path"], nontrivial=True, key=key)
+            if oI == oM and oI != oR:
+                self.count("known_D6")
+                return Verdict("known", cls="D6-raw-paths", detail="reported path %r does not resolve back" % c.meta["path"], nontrivial=True, key=key)
+            return Verdict("violation", detail="the path %r reported for %s resolves to %r" % (c.meta["path"], c.meta["expect_loc"], I[:2]), nontrivial=True, key=key)
+        if oI == oR:
+            if oM != oI:
+                return Verdict("stale", nontrivial=nt, key=key)
+            return Verdict("ok", nontrivial=nt, key=key)
+        if oI == oM:
+            if not c.meta.get("plain", True) or not loc_plain_text(c.meta["path"]):
+                self.count("known_D6")
+                return Verdict("known", cls="D6-raw-paths", detail="impl=model=%r rfc=%r" % (I[:2], R[:2]), nontrivial=nt, key=key)
+            return Verdict("violation", detail="reference(%r): implementation (and model) give %r, RFC reading gives %r" % (c.meta["path"], I[:2], R[:2]), nontrivial=nt, key=key)
+        return Verdict("violation", detail="reference(%r): implementation %r, RFC reading %r, model %r" % (c.meta["path"], I[:2], R[:2], M[:2]), nontrivial=nt, key=key)
+
+
+class C12(PropCheck):
+    pid = "C12"
+    design_ref = "DESIGN.md section 3, C12"
+    technique = "generated Coq obligation (shared-state footprint of src/ is empty) + stateless state-machine theorems + history/thread differential run"
+    level_text = ("tools/footprint.py scans src/ on every run and emits gen/Footprint.v; C12_no_shared_state proves the list of statics, "
+                  "thread-locals, locks, cells, atomics and unsafe blocks empty by reflexivity (a cache added to the crate breaks this "
+                  "obligation). Under it the API is the stateless machine of Purity.v, for which entry-point agreement, parse-once = "
+                  "parse-each and independence from every history are theorems. Partial by nature: schedules are runtime behaviour; the "
+                  "S-hist stream runs 40 permuted/repeated histories per batch and 16 threads sharing each parsed query and document.")
+    level_note = "partial: thread schedules and data races are sampled, not proved; Send + Sync of JpQuery is a compile-time assertion of the harness"
+    rule = ("batches of 12 (query string, document) operations: entry points compared position by position, 40 permuted and reversed "
+            "histories, prepared vs re-parsed queries, 16 threads x 60 iterations over shared Arc<JpQuery>/Arc<Value>, document snapshot; "
+            "non-trivial = a batch with at least one non-empty result; distinct = distinct batches")
+    n_quick = 120
+    n_thorough = 3000
+    harness_features = "sendsync"
+
+    def cases(self):
+        n = self.n_quick if self.tier == "quick" else self.n_thorough
+        g = gen.Gen(self.rng, gen.Profile(odd_names=True, regex=True, custom=True, max_segments=3, filter_depth=2))
+        out = []
+        for b in range(n):
+            ops = []
+            shared_doc = g.doc()
+            while len(ops) < 12:
+                q, d = g.pair()
+                if not (gen.parser_shaped(q) and gen.valid_ast(q)):
+                    continue
+                text = gen.render(q, gen.Layout(self.rng, 0.1))
+                if self.rng.random() < 0.1:
+                    text = gen.mutate(self.rng, text)      # invalid queries are part of a history too
+                ops.append((S(text), shared_doc if self.rng.random() < 0.4 else d))
+            out.append(Case("h%d" % b, "HIST", [("ops",) + tuple(ops), str(self.rng.randrange(1, 2**31))], {"batch": b}))
+        return out
+
+    def judge(self, c, ans):
+        I = ans.get("I")
+        if not I:
+            return Verdict("violation", detail="no answer")
+        if I[0] == "OK":
+            return Verdict("ok", nontrivial=True, key=sx_key(c))
+        return Verdict("violation", detail="history/schedule dependence: %r" % (I,), nontrivial=True, key=sx_key(c))
+
+
+def loc_plain_text(path):
+    """no escape sequence, quote inside a name or control character in the path text"""
+    return "\\" not in path and all(ord(ch) >= 32 for ch in path)
+
+
+REGISTRY = {"C01": C01, "C02": C02, "C03": C03, "C04": C04, "C05": C05, "C06": C06, "C07": C07, "C09": C09, "C10": C10, "C11": C11, "C12": C12, "C13": C13, "C14": C14}
 NOT_YET = {}
